@@ -85,6 +85,7 @@ func New(prog *ssa.Program, sizes types.Sizes) *Interp {
 	runtimePkg := i.prog.ImportedPackage("runtime")
 	i.runtimeErrorString = runtimePkg.Type("errorString").Object().Type()
 	rtErrType = i.runtimeErrorString
+	theInterp = i
 	for _, pkg := range i.prog.AllPackages() {
 		for _, m := range pkg.Members {
 			if v, ok := m.(*ssa.Global); ok {
@@ -224,6 +225,7 @@ func classifyPanic(p interface{}) interface{} {
 }
 
 var curFr *frame
+var theInterp *interpreter
 
 func trail() string {
 	if curFr != nil {
